@@ -50,6 +50,25 @@ Theorem C08_aggregates : forall l1 l2 l m,
 Proof. intros. split; [apply sum_app|apply zmin_spec]. Qed.
 Print Assumptions C08_aggregates.
 
+(* fn:string-join: the separator.join(items) of the code (a left fold) is the F&O value - the items in order with the
+   separator between adjacent items - for every sequence of strings and every separator; with the laws that pin it down:
+   concatenation of two non-empty sequences, the empty separator (= fn:concat of the items), and the length *)
+Theorem C08_string_join : forall sep l l1 l2,
+  py_join sep l = string_join l sep /\
+  string_join [] sep = [] /\
+  (l1 <> [] -> l2 <> [] -> string_join (l1 ++ l2) sep = string_join l1 sep ++ sep ++ string_join l2 sep) /\
+  string_join l [] = concat l /\
+  (l <> [] -> (length (string_join l sep) + length sep = length (concat l) + length l * length sep)%nat).
+Proof.
+  intros sep l l1 l2. split; [apply py_join_is_string_join|]. split; [reflexivity|].
+  split; [apply string_join_app|]. split; [apply string_join_empty_sep|apply string_join_length].
+Qed.
+Print Assumptions C08_string_join.
+(* fn:empty and fn:exists are complementary and agree with fn:count *)
+Theorem C08_empty_exists : forall l, empty l = negb (exists_ l) /\ (empty l = true <-> length l = 0%nat).
+Proof. intros l. destruct l; split; try reflexivity; split; intros H; try reflexivity; discriminate. Qed.
+Print Assumptions C08_empty_exists.
+
 Example C08_nonvacuous :
   insert_before [1; 2; 3] 2 [9; 8] = [1; 9; 8; 2; 3] /\ insert_before [1; 2] 7 [9] = [1; 2; 9] /\ remove [1; 2; 3] 2 = [1; 3] /\
   for_expr [fun _ => [1; 2; 3]; fun env => range 1 (nth 0 env 0)] (fun e => [nth 0 e 0 * 10 + nth 1 e 0]) = [11; 21; 22; 31; 32; 33] /\
